@@ -442,6 +442,56 @@ def generate(repo):
                             ("ktyIsOKP", "Bool"), ("ktyIsOct", "Bool")],
          "jwks.c `jwk_process_one`: the result says which importer the item went through before `jwk_process_values` -- 1 `process_ec`, 2 `process_rsa`, "
          "3 `process_eddsa`, 4 `process_octet`, 0 none (the item is returned flagged), 9 = NULL (allocation); `ktyIsEC` = `jwt_strcmp(kty, \"EC\")` is 0, …")
+    # ================= the typed map (jwt-setget.c) =================
+    sg = strip_c(open(os.path.join(repo, "libjwt/jwt-setget.c")).read())
+    hdr = strip_c(open(os.path.join(repo, "include/jwt.h")).read())
+    m = re.search(r"typedef\s+enum\s*\{([^}]*)\}\s*jwt_value_error_t\s*;", hdr, re.S)
+    if not m:
+        raise PipelineError("enum jwt_value_error_t not found in include/jwt.h")
+    codes, nxt = {}, 0
+    for it_ in m.group(1).split(","):
+        it_ = it_.strip()
+        if not it_:
+            continue
+        if "=" in it_:
+            nm_, v_ = [x.strip() for x in it_.split("=")]
+            nxt = int(v_, 0)
+        else:
+            nm_ = it_
+        codes[nm_] = nxt
+        nxt += 1
+    E = lambda n: str(codes["JWT_VALUE_ERR_" + n])
+    name_atoms = {"jval->name": ("nameNull", "ptr"), "strlen(jval->name)": ("nameEmpty", "ptr")}
+    for fn, lean_name, pred, extra_eff, extra_atoms in (
+            ("jwt_get_str", "getStr", "json_is_string(val)", {"jval->str_val = json_string_value(val)"}, {"jval->str_val": ("valueNull", "ptr")}),
+            ("jwt_get_int", "getInt", "json_is_integer(val)", {"jval->int_val = (long)json_integer_value(val)"}, {}),
+            ("jwt_get_bool", "getBool", "json_is_boolean(val)", {"jval->bool_val = (json_is_true(val) ? 1 : 0)"}, {})):
+        sk = Skeleton(fn, find_body(sg, r"static\s+jwt_value_error_t\s+%s\s*\(" % fn, fn),
+                      atoms=dict(name_atoms, **dict({"val": ("absent", "ptr"), pred: ("isType", "bool")}, **extra_atoms)),
+                      effects={"decl val", "val = json_object_get(which, jval->name)"} | extra_eff,
+                      consts={"jval->error = JWT_VALUE_ERR_INVALID": ("jval->error", E("INVALID"))},
+                      rets={"jval->error = JWT_VALUE_ERR_INVALID": E("INVALID"), "jval->error = JWT_VALUE_ERR_NOEXIST": E("NOEXIST"),
+                            "jval->error = JWT_VALUE_ERR_TYPE": E("TYPE"), "jval->error": "errIn"}, flags=("w",))
+        params = [("nameNull", "Bool"), ("nameEmpty", "Bool"), ("absent", "Bool"), ("isType", "Bool")] + ([("valueNull", "Bool")] if extra_atoms else []) + [("errIn", "Nat")]
+        emit(sk, lean_name, params, "jwt-setget.c `%s`: the code returned (and stored in `value->error`); `absent` = no such member, `isType` = it has the JSON type asked for, "
+                                    "`errIn` = `value->error` on entry (`__getter` resets it to NONE)" % fn)
+    sk = Skeleton("jwt_obj_check", find_body(sg, r"static\s+jwt_value_error_t\s+jwt_obj_check\s*\(", "jwt_obj_check"),
+                  atoms={"json_object_get(which, jval->name)": ("absent", "ptr"), "jval->replace": ("noReplace", "ptr")}, effects=set(),
+                  flag_effects={"json_object_del(which, jval->name)": "deleted"},
+                  rets={"jval->error = JWT_VALUE_ERR_EXIST": E("EXIST"), "JWT_VALUE_ERR_NONE": E("NONE")}, flags=("w", "deleted"))
+    emit(sk, "objCheck", [("absent", "Bool"), ("noReplace", "Bool")],
+         "jwt-setget.c `jwt_obj_check`: a member that is there is deleted when `replace` is set (`deleted`), refused with EXIST otherwise")
+    for fn, lean_name, ctor, more_atoms in (("jwt_set_int", "setInt", "json_integer((json_int_t)jval->int_val)", {}),
+                                            ("jwt_set_bool", "setBool", "json_boolean(jval->bool_val)", {}),
+                                            ("jwt_set_str", "setStr", "json_string(jval->str_val)", {"jval->str_val": ("valueNull", "ptr")})):
+        sk = Skeleton(fn, find_body(sg, r"static\s+jwt_value_error_t\s+%s\s*\(" % fn, fn),
+                      atoms=dict(name_atoms, **dict({"jwt_obj_check(which, jval)": ("checkPasses", "ptr"),
+                                                     "json_object_set_new(which, jval->name, %s)" % ctor: ("storeFails", "bool")}, **more_atoms)),
+                      effects=set(), consts={"jval->error = JWT_VALUE_ERR_INVALID": ("jval->error", E("INVALID"))},
+                      sets={}, rets={"jval->error = JWT_VALUE_ERR_INVALID": E("INVALID"), "jval->error": "errNow"}, flags=("w",))
+        params = [("nameNull", "Bool"), ("nameEmpty", "Bool")] + ([("valueNull", "Bool")] if more_atoms else []) + [("checkPasses", "Bool"), ("storeFails", "Bool"), ("errNow", "Nat")]
+        emit(sk, lean_name, params, "jwt-setget.c `%s`: `checkPasses` = `jwt_obj_check` returned 0 (otherwise it has put EXIST into `value->error`), `storeFails` = the value "
+                                    "could not be built or stored, `errNow` = `value->error` at the time of the return" % fn)
     out.append("end Jwt.Generated.Pipeline")
     return "\n".join(out) + "\n", info
 
